@@ -14,7 +14,10 @@ RULE = ("histories of 1..12 calls on one ECDH object over a pool of 2..4 Curve o
         "object/raw/uncompressed/compressed/hybrid/DER/PEM; invalid inputs (d=0, d>=n, wrong length, point off curve, bad "
         "prefix, inconsistent hybrid, truncated or foreign-curve DER, small-order points, order-2 point of SECP112r2); "
         "two-party exchanges with boundary scalar pairs and pairs whose secret has leading zero bytes (searched on toy "
-        "curves, fixed vectors re-verified on named curves); distinct = distinct history line; non-trivial = history "
+        "curves, fixed vectors re-verified on named curves); histories ACROSS ECDH objects in one process (\"before\": other objects' "
+        "histories run first - the same key bytes loaded on curve A, then offered to an object on a curve B of the same encoding "
+        "length, every group of equal-length named / toy curves, 4 encodings; a whole history repeated on a second object; every "
+        "loader call repeated on one object): the model knows no module-level state; distinct = distinct history line; non-trivial = history "
         "contains at least one generate_sharedsecret(_bytes) call")
 EXTRA_PROPS = ["C05g", "C05b", "C05k", "C05x", "C05s", "C05t"]   # C05t: second translator tie (deep embedding, rand agent); C05s: the generated text of ecdh.py (gen_ecdhskel.py) is the model; C05x: end-to-end exchange theorem (unconditional on P-256, secp256k1, SECP112r2); C05k: LoadersValidate proved for the driver env from C08; C05b: secret_bytes with the number_to_string facts discharged; C05g: GroupReading discharged for Model/Curve.lean from C06/C07 (Proofs/GroupInterface.lean)
 ASSUMPTIONS = [
@@ -180,6 +183,10 @@ class Run:
         from ecdsa import ecdh
         from ecdsa.keys import SigningKey, VerifyingKey
         h = self.hist
+        # "before": histories of OTHER ECDH objects executed first in this process (module-level state must not exist:
+        # the model line is that of this history alone)
+        for hb in h.get("before", []):
+            Run({k: v for k, v in hb.items() if k != "before"}).run()
         ini = h["init"]
         toks, outs, trace = [], [], []
         c0 = None if ini["c"] is None else self.cs[ini["c"]].obj
@@ -795,6 +802,45 @@ def all_histories(ctx):
             continue
         for h in exchange(ctx, {"name": name}, a, b):
             hs.append((h, None, "leading-zero-named"))
+    # across ECDH objects in one process: bytes valid on curve A loaded into an object on A, then the SAME bytes offered to an
+    # object on another curve B with the same encoding length (must be judged on B: MalformedPointError unless the point
+    # happens to lie on B too); also every loader called twice on one object, and a whole history repeated on a second object
+    groups = [["NIST256p", "SECP256k1", "BRAINPOOLP256r1"], ["NIST192p", "BRAINPOOLP192r1"], ["SECP160r1", "BRAINPOOLP160r1"]]
+    if not ctx.quick:
+        groups += [["NIST224p", "BRAINPOOLP224r1"], ["NIST384p", "BRAINPOOLP384r1"], ["BRAINPOOLP512r1", "BRAINPOOLP512t1"],
+                   ["BRAINPOOLP256r1", "BRAINPOOLP256t1"], ["BRAINPOOLP320r1", "BRAINPOOLP320t1"]]
+    toy_groups = [["T271", "T281"], ["T13", "T29", "H3a", "H4"], ["T967", "H3b"]]
+    for grp in groups + toy_groups:
+        specs_g = [toy_spec(t) if t in TOYS else {"name": t} for t in grp]
+        try:
+            csg = [CurveSpec(sp) for sp in specs_g]
+        except StopIteration:
+            continue                                   # a curve name this version of the library does not have
+        for ia, A in enumerate(csg):
+            for ib, B in enumerate(csg):
+                if ia == ib or A.obj.verifying_key_length != B.obj.verifying_key_length:
+                    continue
+                Q = R.mul(A.cv, A.G, rng.randrange(2, A.n))
+                for enc in ("raw", "uncompressed", "compressed", "hybrid"):
+                    blob = enc_point(A, Q, enc).hex()
+                    hA = {"curves": [specs_g[ia]], "init": {"c": 0, "sk": [0, 3], "vk": None}, "ops": [["loadpubbytes", blob], ["secret"]]}
+                    hB = {"curves": [specs_g[ib]], "init": {"c": 0, "sk": [0, 5], "vk": None},
+                          "ops": [["loadpubbytes", blob], ["secret"], ["secretbytes"]], "before": [hA]}
+                    hs.append((hB, None, "cross-object"))
+                    # ... and back on A after B refused it, and twice on one object
+                    hA2 = dict(hA, ops=[["loadpubbytes", blob], ["loadpubbytes", blob], ["secret"], ["secretbytes"]], before=[hA, hB])
+                    hs.append((hA2, None, "cross-object"))
+    for _ in range(60 if ctx.quick else 1000):
+        h, m = random_history(ctx)
+        ops2, m2 = [], []
+        for op, mm in zip(h["ops"], m):
+            ops2.append(op); m2.append(mm)
+            if op[0].startswith("load") and rng.random() < 0.5:
+                ops2.append(op); m2.append(mm)         # the same loader call again
+        h2 = dict(h, ops=ops2)
+        if rng.random() < 0.6:
+            h2["before"] = [dict(h)] + ([random_history(ctx)[0]] if rng.random() < 0.3 else [])
+        hs.append((h2, m2, "repeated"))
     # K2 witness (open known finding): the point of order 2 of SECP112r2 passes validation; with any d the product
     # is "at infinity" by the code's Y = 0 convention
     k2 = (0xb1fd8de127d4656b573eb513984d, 0)
